@@ -137,6 +137,23 @@ def _worker(item):
         _EXECUTED.append(index)
         return result
     except BaseException as exc:  # noqa: BLE001
+        # An exception that comes out of the code under test (some frame of the traceback is in the
+        # repository's sources) at a place where the check did not expect one is a violation: on the
+        # unchanged tree the explored space raises none.  Anything else is a bug in the harness.
+        library_frames = [frame for frame in traceback.extract_tb(exc.__traceback__)
+                          if os.path.realpath(frame.filename).startswith(os.path.realpath(env.SRC) + os.sep)]
+        if library_frames and not isinstance(exc, (KeyboardInterrupt, SystemExit, MemoryError)):
+            where = library_frames[-1]
+            return {
+                'index': index, 'transitions': 1, 'nontrivial': 0, 'outcome': 'exception', 'states': 1,
+                'preceding': list(_EXECUTED),
+                'violations': [{
+                    'fingerprint': f"{_CHECK.PROPERTY}/unexpected-exception/{type(exc).__name__}/{where.name}",
+                    'what': f"the code under test raised {type(exc).__name__}: {exc} "
+                            f"(in {os.path.basename(where.filename)}:{where.lineno} {where.name}) where the property requires an answer",
+                    'expected': 'no exception', 'observed': traceback.format_exc()[-1500:],
+                }],
+            }
         return {
             'index': index,
             'harness_error': f"{type(exc).__name__}: {exc}",
